@@ -13,7 +13,13 @@ for patch in "$HERE"/mutants/${1:-*}.patch "$HERE"/seeded/${1:-*}/patch.diff; do
   prop="$(python3 -c "import json,sys;print(json.load(open(sys.argv[1]))['property'])" "$meta")"
   git -C "$W" checkout -q -- . ; git -C "$W" clean -fdqx
   git -C "$W" apply "$patch" || { echo "$name: PATCH DOES NOT APPLY"; continue; }
+  expect="$(python3 -c "import json,sys;print(json.load(open(sys.argv[1])).get('expect','violation'))" "$meta")"
   out="$("$HERE/mutcheck.sh" "$W" "$prop" quick 2>&1)"; rc=$?
+  if [ "$expect" = clean ]; then
+     if [ $rc = 0 ]; then echo "$name: CLEAN as expected (control: the property holds with this change)"; pass=$((pass+1));
+     else echo "$name: FALSE ALARM on a control change (rc=$rc) $(echo "$out" | grep -A2 '^VIOLATION\|TROUBLE' | head -4 | tr '\n' ' ')"; miss=$((miss+1)); fi
+     continue
+  fi
   if [ $rc = 1 ] && echo "$out" | grep -q "^VIOLATION property=$prop"; then
      echo "$name: DETECTED by $prop quick  ($(echo "$out" | grep -A1 '^VIOLATION' | grep class= | head -1 | sed 's/^ *//'))"; pass=$((pass+1))
   else
